@@ -258,6 +258,15 @@ func (r *checkRun) run() int {
 			rep.Obligations = append(rep.Obligations, &Obligation{Name: "cypher/frontend#derive.unsupported.overridden[" + o + "]", Kind: "derive", Func: rep.Key, Result: "refuted", Detail: o + " overrides (or removes) the error-reporting Enter method of an unsupported grammar rule"})
 		}
 		r.reports = append(r.reports, rep)
+		un, summary := ruleCoverage(w, r.repo)
+		rep2 := &FuncReport{Key: "cypher/grammar/Cypher.g4"}
+		if len(un) == 0 {
+			rep2.Obligations = append(rep2.Obligations, &Obligation{Name: "cypher/grammar/Cypher.g4#derive.rule-coverage", Kind: "derive", Func: rep2.Key, Result: "unsat", Solver: "structural", Src: summary})
+		}
+		for _, u := range un {
+			rep2.Obligations = append(rep2.Obligations, &Obligation{Name: "cypher/grammar/Cypher.g4#derive.rule-coverage[" + u + "]", Kind: "derive", Func: rep2.Key, Result: "refuted", Detail: "grammar rule oC_" + u + " has no visitor, reports no error and is not a reviewed transparent rule: its content would be dropped silently"})
+		}
+		r.reports = append(r.reports, rep2)
 	}
 	if r.cfg.Grammar {
 		g := checkGrammarLemma(r.repo)
